@@ -395,6 +395,6 @@ def _untoks(line: str) -> list[str]:
 
 
 def replay(data: dict) -> int:
-    print(data.get("what"))
-    print(data.get("replay"))
-    return 0
+    from harness.common import replay_by_rerun
+
+    return replay_by_rerun("C04", run, data)
